@@ -30,6 +30,7 @@ func runC16(c *Ctx) {
 	c16Detach(c)
 	runAssignTaintRule(c, "C16.assign", 4)
 	runAssignInPlaceRule(c, "C16.inplace", 18)
+	runDestReadsRule(c, "C16.destreads", 5)
 }
 
 func c16PtrKinds(c *Ctx) {
